@@ -161,8 +161,66 @@ def confirm(check):
         out.append({'tid': tid, 'seq': seq, 'clause': clause, 'ev': this, 'pre': pre, 'prog': prog})
     check.flaky = sorted(first - second)
     if check.flaky:
-        check.notes.append(f'{len(check.flaky)} rejections did not reproduce in a fresh interpreter (ignored): '
-                           f'{check.flaky[:5]}')
+        out.extend(confirm_with_history(check, check.flaky))
+    if check.flaky:
+        check.notes.append(f'{len(check.flaky)} rejections did not reproduce in a fresh interpreter, alone or after the '
+                           f'programs that ran before them (ignored): {check.flaky[:5]}')
+    return out
+
+
+def _pre_state(evs, seq):
+    pre = {}
+    for e in evs:
+        if e['seq'] >= seq:
+            break
+        for d in e.get('drop', []):
+            pre.pop(d, None)
+        pre.update(e['post'])
+    return pre
+
+
+def confirm_with_history(check, flaky, limit=8):
+    """A rejection that does not reproduce when its program runs alone may need what the same interpreter did
+    before (process-wide state: class attributes, module caches). Re-execute the program after the programs that
+    preceded it in its worker - the last 1, 3, 7, ... of them, then all - in a fresh interpreter; a rejection that
+    comes back is reported with that prelude as part of the replay."""
+    out = []
+    done_classes = set()
+    still = []
+    for (tid, seq, clause) in flaky:
+        prog = check.programs[tid]
+        key = (clause, prog['calls'][min(seq, len(prog['calls']) - 1)]['op'])
+        if key in done_classes or len(done_classes) >= limit or tid not in getattr(check, 'shard_of', {}):
+            if key not in done_classes:
+                still.append((tid, seq, clause))
+            continue
+        shard, idx = check.shard_of[tid]
+        found = None
+        k = 1
+        while True:
+            prelude = shard[max(0, idx - k):idx]
+            evlists = rerun(prelude + [prog])
+            path = os.path.join(check.wd, 'confirm_hist.ndjson')
+            with open(path, 'w') as f:
+                for evs in evlists:
+                    for ev in evs:
+                        f.write(json.dumps(ev, separators=(',', ':')) + '\n')
+            v = tlc.validate_shards([path], check.wd, par=1)
+            if (tid, seq, clause) in set(v['rejects']):
+                found = (prelude, evlists[-1])
+                break
+            if k >= idx:
+                break
+            k = min(idx, 2 * k + 1)
+        if found is None:
+            still.append((tid, seq, clause))
+            continue
+        done_classes.add(key)
+        prelude, evs = found
+        this = [e for e in evs if e['seq'] == seq][0]
+        out.append({'tid': tid, 'seq': seq, 'clause': clause, 'ev': this, 'pre': _pre_state(evs, seq), 'prog': prog,
+                    'prelude': prelude})
+    check.flaky = still
     return out
 
 
@@ -203,6 +261,9 @@ def write_replay(check, v):
     prog['calls'] = prog['calls'][:v['seq'] + 1]
     body = {'property': check.pid, 'clause': v['clause'], 'seq': v['seq'], 'features': v['features'],
             'program': prog, 'observed_event': v['ev']}
+    if v.get('prelude'):
+        # programs the same interpreter must have run before (the rejection depends on process-wide state)
+        body['prelude'] = v['prelude']
     path = os.path.join(VERIF, 'replays', f"{check.pid}-{digest(prog['calls'])}.json")
     with open(path, 'w') as f:
         json.dump(body, f, indent=1)
@@ -215,7 +276,11 @@ def replay(path):
         body = json.load(f)
     prog = body['program']
     prog['tid'] = 1
-    evs = rerun([prog])[0]
+    prelude = [dict(p, tid=-(i + 1)) for i, p in enumerate(body.get('prelude', []))]
+    evlists = rerun(prelude + [prog])
+    evs = evlists[-1]
+    if prelude:
+        print(f'({len(prelude)} prelude programs executed first in the same interpreter)')
     wd = tlc.workdir('replay_%d' % os.getpid())
     p = os.path.join(wd, 'replay.ndjson')
     with open(p, 'w') as f:
